@@ -343,13 +343,9 @@ Definition has_open_child (s : state) (c : nat) : bool :=
 Definition patch (s : state) (c : nat) (a : action) (o : out) : out :=
   match a, o with
   | AExitEnd, Exited ran _ =>
-      (* a root context whose block raised lets that exception out of its exit stack (it is
-         re-raised by coalesce_exceptions), which skips the open-children check *)
-      let skipped := match nth_error s c with
-                     | Some x => match parent x with None => blockexc x | Some _ => false end
-                     | None => false
-                     end in
-      Exited ran (has_open_child s c && negb skipped)
+      (* the open-children check runs however the exit stack ends (block exception re-raised
+         by the root's task group, failing teardown callbacks): it is in the finally clause *)
+      Exited ran (has_open_child s c)
   | _, _ => o
   end.
 
